@@ -76,9 +76,12 @@ def run(tier, runner):
     r_di = round5.direct_init(progs)
     r_cf = round5.ctor_fwd(progs)
     r_cf.require(4, 'construct_at instantiations of the value-category driver')
+    from ..rules import round6
+    r_cg = round6.contig(progs)
+    r_cg.require(2, 'byte copies issued by the memory algorithms')
     return {
-        'results': [r_ret, r_ord, r_adv, r_emu, r_raw, r_cur, r_same, r_mem, r_eff, r_di, r_cf] + r_w,
-        'explanation': 'DIRECT-INIT: the construct_at emulation direct-initialises like std::construct_at.  SAMETYPE: memcpy / memmove only between pointers to the same value type (cross-type copies are instantiated and must convert).  CURSOR: in every try { constructing loop } catch { destroy(first, cursor) } the cursor is never advanced inside the arguments of the constructing call, so the handler destroys exactly the objects that exist.  Per language standard (different implementations are selected by the #if ladders): RETURN - every non-void function returns on every '
+        'results': [r_ret, r_ord, r_adv, r_emu, r_raw, r_cur, r_same, r_mem, r_eff, r_di, r_cf, r_cg] + r_w,
+        'explanation': 'CONTIG: a byte copy of more than one element takes both addresses from raw pointers - an address obtained by dereferencing a class-type iterator (reverse_iterator, deque::iterator: random access but not contiguous; instantiated on both sides) is only used for one element.  DIRECT-INIT: the construct_at emulation direct-initialises like std::construct_at.  SAMETYPE: memcpy / memmove only between pointers to the same value type (cross-type copies are instantiated and must convert).  CURSOR: in every try { constructing loop } catch { destroy(first, cursor) } the cursor is never advanced inside the arguments of the constructing call, so the handler destroys exactly the objects that exist.  Per language standard (different implementations are selected by the #if ladders): RETURN - every non-void function returns on every '
                        'path; SIG - result types and iterator advances as the standard algorithms (compile-time); CLEANUP (RAWTAIL on memory.hpp) - every '
                        'construct loop is inside a try whose handler destroys [dest,current) and rethrows, so partial output is destroyed on throw; '
                        'RELOC-ORDER - the generic relocate move-constructs every destination before destroying any source (sources stay alive when a '
